@@ -278,6 +278,8 @@ def build_project(spec, name="generated"):
                     progs_here[pn] = base * (1.5 + 0.25 * q) if par != "prop_tx" else min(1.0, base * (1.2 + 0.1 * q))
                     if pop not in pset.programs[pn].target_pops:
                         pass
+                if par in ("mort_inf", "p_vac") and progs_here:
+                    progs_here[list(progs_here.keys())[0]] = 0.0  # an outcome of exactly zero is valid (the program removes the flow entirely)
                 progs_here = {pn: v for pn, v in progs_here.items() if pop in pset.programs[pn].target_pops}
                 if not progs_here:
                     continue
